@@ -24,6 +24,10 @@ type C10Case struct {
 	// CtlLimit: a larger limit is configured and a rule lowers it to Limit for this transaction
 	// (ctl:requestBodyLimit in phase 1, ctl:responseBodyLimit in phase 3): the limit in force is still Limit
 	CtlLimit bool `json:"ctl_limit,omitempty"`
+	// ReadBack: how the body reader is consumed: "" (Read with a 3-byte buffer) | copy (io.Copy, which prefers the
+	// reader's WriteTo) | head-copy (Read a few bytes, then io.Copy for the rest) | readall
+	ReadBack string `json:"read_back,omitempty"`
+	Head     int    `json:"head,omitempty"`
 }
 
 // plainReader hides Len() so the reader-based entry point cannot know the size in advance.
@@ -38,6 +42,8 @@ func genC10(t *rapid.T) *C10Case {
 	c.MemLimit = rapid.IntRange(1, c.Limit).Draw(t, "memlimit")
 	c.Action = rapid.SampledFrom([]string{"Reject", "ProcessPartial"}).Draw(t, "action")
 	c.CtlLimit = rapid.IntRange(0, 3).Draw(t, "ctllimit") == 0
+	c.ReadBack = rapid.SampledFrom([]string{"", "", "copy", "head-copy", "head-copy", "readall"}).Draw(t, "readback")
+	c.Head = rapid.IntRange(1, 9).Draw(t, "head")
 	// total size biased to each threshold +-1
 	targets := []int{0, 1, c.MemLimit - 1, c.MemLimit, c.MemLimit + 1, c.Limit - 1, c.Limit, c.Limit + 1, c.Limit + 7, c.Limit + 40, c.Limit / 2}
 	total := rapid.SampledFrom(targets).Draw(t, "total")
@@ -188,14 +194,28 @@ func (c *C10Case) run(mem int) (*c10Obs, *Failure) {
 			rd, _ = tx.ResponseBodyReader()
 		}
 		if rd != nil {
-			// read in odd-sized pieces to exercise the reader's boundary arithmetic
 			var buf bytes.Buffer
-			piece := make([]byte, 3)
-			for {
-				n, err := rd.Read(piece)
-				buf.Write(piece[:n])
-				if err != nil || n == 0 {
-					break
+			switch c.ReadBack {
+			case "copy":
+				_, _ = io.Copy(&buf, rd)
+			case "head-copy":
+				// what a connector does that sniffs the beginning and forwards the rest
+				head := make([]byte, c.Head)
+				n, _ := io.ReadFull(rd, head)
+				buf.Write(head[:n])
+				_, _ = io.Copy(&buf, rd)
+			case "readall":
+				b, _ := io.ReadAll(rd)
+				buf.Write(b)
+			default:
+				// read in odd-sized pieces to exercise the reader's boundary arithmetic
+				piece := make([]byte, 3)
+				for {
+					n, err := rd.Read(piece)
+					buf.Write(piece[:n])
+					if err != nil || n == 0 {
+						break
+					}
 				}
 			}
 			o.Reader = buf.Bytes()
@@ -406,6 +426,9 @@ func checkC10(c *C10Case) Result {
 				res.Labels = append(res.Labels, "rejected")
 			}
 			res.Labels = append(res.Labels, "side:"+c.Side, "action:"+c.Action)
+			if c.ReadBack != "" {
+				res.Labels = append(res.Labels, "read-back:"+c.ReadBack)
+			}
 			if c.CtlLimit {
 				res.Labels = append(res.Labels, "limit-lowered-by-ctl:"+c.Side)
 			}
